@@ -9,8 +9,8 @@
     [res : nat -> string] assigns a result to every filter invocation; all
     theorems quantify over it, over every flow and every starting state. *)
 From EG.lib Require Import Base.
-From EG.model Require Import Pipeline PipelineSpec.
-From EG.proofs Require Import PipelineProofs PipelineVProofs.
+From EG.model Require Import Pipeline PipelineSpec PipelineCheck.
+From EG.proofs Require Import PipelineProofs PipelineVProofs PipelineCProofs.
 Open Scope string_scope.
 Open Scope list_scope.
 
@@ -143,6 +143,23 @@ Theorem C02_reuse_ok : forall kinds ds,
      validate kinds ds (map (reuse_node (dname d)) ans) = true).
 Proof. exact thm_reuse_ok. Qed.
 Print Assumptions C02_reuse_ok.
+
+(** the per-run property checker (model/PipelineCheck.v) is sound: its validity
+    oracle [validspec_b] decides exactly [validate], and every observed trace
+    accepted by [walk_obs] is, entry by entry, a reference walk under the
+    observed results, stopping in the same status *)
+Theorem C02_checker_sound :
+  (forall k s, validspec_b k s = validate k (s_decls s) (s_flow s)) /\
+  (forall E (matches : node -> E -> bool) (eres : E -> string) flow (res : nat -> string)
+          (es : list E) s n last fin rest,
+     (forall k e, nth_error es k = Some e -> res (n + k) = eres e) ->
+     walk_obs matches eres flow s es = Some (fin, rest) ->
+     exists v consumed r,
+       RefWalk ideal flow res n s last v r fin (n + List.length v) /\
+       es = consumed ++ rest /\
+       Forall2 (fun j e => exists nd, nth_error flow j = Some nd /\ matches nd e = true) v consumed).
+Proof. exact (conj validspec_b_validate (@walk_obs_sound)). Qed.
+Print Assumptions C02_checker_sound.
 
 (** known finding KF-C02-end-alias-jump-target: with the quirk flag on (the
     behaviour of the unchanged code) a spec accepted by validation ends on an
